@@ -80,7 +80,7 @@ fn gen(rng: &mut Rng, _tier: Tier) -> Spec {
         par_insert: *rng.pick(&[0, 0, 2]),
         cache: gen_cache(rng),
         policy: gen_policy(rng),
-        h2_mask: if rng.chance(2, 3) { (rng.next_u64() & 0x3ff) as u16 } else { 0 },
+        h2_mask: if rng.chance(2, 3) { (rng.next_u64() & 0x7ff) as u16 } else { 0 },
         universe,
         prefix,
         concurrent,
